@@ -7,8 +7,12 @@ Line protocol of C02: a whole history as for C01, the LAST item being run with a
           `reject <i> <ref>`     the server refuses <ref> in operation number i; the job stops there
                                  (the real push raises after its retries), i.e. operations 0..i are attempted
           `none`                 uninterrupted
+          `crashrej <k> <i>=<ref>,<i>=<ref>,...`   the job dies after k of its operations, the server having refused
+                                 <ref> in operation number <i> (any number of them): the general form of
+                                 `observableAt`, used where the code performs independent operations (the deletions
+                                 of the q/ branches) in another order than the model lists them
 Answer: `ops=<n>:<kinds>;<observation before the last item>;<observation of the interrupted remote>` where kinds
-is the list of operation kinds of the plan (`push`, `pushall`, `delete`), observations as for C01.
+is the list of operation kinds of the plan (`push`, `pushall`, `delete=<ref>`), observations as for C01.
 -/
 namespace BertE.Drv.C02
 open BertE.Git BertE.Flow BertE.Drv.C01
@@ -29,18 +33,29 @@ inductive Fault where
   | none
   | crash (k : Nat)
   | reject (i : Nat) (r : Ref)
+  | crashrej (k : Nat) (rs : List (Nat × Ref))
+
+def parseRej (w : String) : Option (Nat × Ref) :=
+  match w.splitOn "=" with
+  | i :: rest => do let i ← i.toNat?; let r ← parseRef ("=".intercalate rest); pure (i, r)
+  | _ => none
 
 def parseFault (ws : List String) : Option Fault :=
   match ws with
   | ["none"] => some .none
   | ["crash", k] => k.toNat?.map Fault.crash
   | ["reject", i, r] => do let i ← i.toNat?; let r ← parseRef r; pure (.reject i r)
+  | ["crashrej", k] => k.toNat?.map (fun k => Fault.crashrej k [])
+  | ["crashrej", k, spec] => do
+    let k ← k.toNat?
+    let rs ← (spec.splitOn ",").mapM parseRej
+    pure (.crashrej k rs)
   | _ => none
 
 def opKind : Op → String
   | .push _ => "push"
   | .pushAll _ _ => "pushall"
-  | .delete _ => "delete"
+  | .delete r => "delete=" ++ showRef r
 
 /-- the interrupted remote of the last event -/
 def faulted (s : Sys) (ev : Event) (f : Fault) : String × Sys :=
@@ -50,6 +65,8 @@ def faulted (s : Sys) (ev : Event) (f : Fault) : String × Sys :=
   | .none => (head, { s with g := p.g, remote := observableAt s p (fun _ _ => false) p.ops.length })
   | .crash k => (head, { s with g := p.g, remote := observableAt s p (fun _ _ => false) k })
   | .reject i r => (head, { s with g := p.g, remote := observableAt s p (fun j x => j == i && x == r) (i + 1) })
+  | .crashrej k rs =>
+    (head, { s with g := p.g, remote := observableAt s p (fun j x => rs.any (fun ir => j == ir.1 && x == ir.2)) k })
 
 def runAll (s : Sys) : List String → Option Sys
   | [] => some s
